@@ -8,5 +8,5 @@ if [ -d extract ]; then
   (cd extract && cp /repo/go.sum . 2>/dev/null; go build -o ../.build/olx . && ../.build/olx -repo /repo -out ../lean/OLP/Gen)
 fi
 (cd lean && lake build)
-(cd harness && cp /repo/go.sum . && go build -tags verif -o ../.build/olh ./cmd/olh)
+(cd harness && cp /repo/go.sum . && go build -tags verif -ldflags=-checklinkname=0 -o ../.build/olh ./cmd/olh)
 echo "setup ok"
